@@ -250,14 +250,20 @@ fn components(d: &FmtDesc, p: &Punct, t: &[u8], is_float: bool) -> Vec<(usize, u
     v
 }
 
-fn twin_name(d: &FmtDesc) -> &'static str {
-    match d.name {
+fn twin_name(d: &FmtDesc) -> String {
+    if let Some(rest) = d.name.strip_prefix("sepf_") {
+        if let Some((base, _)) = rest.rsplit_once("__") {
+            return format!("twinf_{}", base);
+        }
+    }
+    let n: &'static str = match d.name {
         "sepx_hex_p" => "twin_hex_p",
         "sepx_hex_hexexp" => "twin_hex_hexexp",
         "sepx_dec_hexexp" => "twin_dec_hexexp",
         "sepx_prefix_suffix" => "twin_prefix_suffix",
         _ => "STANDARD",
-    }
+    };
+    n.to_string()
 }
 
 fn long_strings(d: &FmtDesc, ec: u8) -> Vec<Vec<u8>> {
@@ -377,7 +383,7 @@ fn main() {
             let fo = ParseFloatOptions::builder().exponent(ec).build_unchecked();
             let io = ParseIntegerOptions::new();
             let ents = entries(&f, &fo, &io);
-            let twin = find(twin_name(&f.desc)).unwrap();
+            let twin = find(&twin_name(&f.desc)).unwrap();
             let tents = entries(&twin, &fo, &io);
             let mut p2 = Punct::standard();
             p2.exponent = ec;
@@ -401,7 +407,7 @@ fn main() {
         let fo = ParseFloatOptions::builder().exponent(ec).build_unchecked();
         let io = ParseIntegerOptions::new();
         let ents = entries(f, &fo, &io);
-        let twin = if f.group == "PREBUILT" { None } else { find(twin_name(d)) };
+        let twin = if f.group == "PREBUILT" { None } else { find(&twin_name(d)) };
         let tents: Option<Vec<Ent>> = twin.as_ref().map(|t| entries(t, &fo, &io));
         let mut p = Punct::standard();
         p.exponent = ec;
